@@ -136,6 +136,11 @@ impl<'a> Session<'a> {
             Err(e) => {
                 v["ok"] = json!(0);
                 v["cls"] = json!(err_class(&e.to_string()));
+                if std::env::var("VH_ERR").is_ok() {
+                    // diagnostics only (ASCII head of the message)
+                    let m: String = e.to_string().chars().take_while(|c| *c != '\n').filter(|c| c.is_ascii()).take(200).collect();
+                    eprintln!("VH_ERR {}", m);
+                }
             }
         }
     }
